@@ -60,6 +60,12 @@ def run_one(prop, base_seed, index, tier, mask, want_raw=False, want_digest=Fals
                     "checked": verdict.get("checked", len(case["ops"]))})
         if want_digest:
             out["digest"] = digest_of(case["ops"], [r for r in case["refs"]], verdict["sut"]["results"])
+        dv = verdict["divergence"]
+        if dv is not None and dv.get("kind") in ("operr", "missing"):
+            # the SUT could not even execute an op although nothing diverged before it: that is a malformed
+            # program (generator bug), never a verdict about the library
+            raise procs.HarnessError(f"malformed program: SUT op error without an earlier divergence at op {dv.get('at')}: "
+                                     f"{json.dumps(dv.get('sut'))[:300]} program={json.dumps(case['ops'])[:1500]}")
         if verdict["divergence"] is not None and not shrink_it:
             out["violation"] = {"unshrunk": True}
         elif verdict["divergence"] is not None:
